@@ -2,6 +2,7 @@
 package main
 
 import (
+	"encoding/json"
 	"flag"
 	"fmt"
 	"io"
@@ -39,6 +40,26 @@ func main() {
 		os.Exit(2)
 	}
 	f(*seed, *n, *tier, *out, *replay)
+}
+
+// caseID identifies one generated case: every random choice of a case derives from (seed, index).
+type caseID struct {
+	Seed  uint64 `json:"seed"`
+	Index int    `json:"index"`
+	Note  string `json:"note,omitempty"`
+}
+
+// caseSeq: the committed corpus of past witnesses (../corpus/<sub>.json, relative to the harness
+// directory) first, then the n fresh cases of this run.
+func caseSeq(sub string, seed uint64, n int) []caseID {
+	var ids []caseID
+	if b, err := os.ReadFile("../corpus/" + sub + ".json"); err == nil {
+		json.Unmarshal(b, &ids)
+	}
+	for i := 0; i < n; i++ {
+		ids = append(ids, caseID{Seed: seed, Index: i})
+	}
+	return ids
 }
 
 func isFlagSet(fs *flag.FlagSet, name string) bool {
